@@ -6,6 +6,7 @@ Require Import Tac ListN Utf8 Width Attrs Cell Row Grid Screen Vte Perform Parse
 Require Import RowInv GridInv TextInv ScreenInv ParseSer CellWf WfGrid WfInv WrapInv WrapInvScreen SgrSpec EmitSafe ObsSpec.
 Require Import AttrsInv EmitTokens CellInv Recv RowPaint Redraw Cursor C01Main C15Main CapInv Idem LastRow C01Examples Bytes.
 Require Import DiffRound DiffPaint DiffGrid DiffMain DiffRoundU DiffWrap DiffK10.
+Require Import Chunking PendTok.
 Open Scope N_scope.
 
 (* ------------------------------------------------------------------ *)
@@ -29,19 +30,20 @@ Qed.
 Lemma diff_step_bytes_K P S r :
   reachable P -> reachable S -> sb_off (cur P) = 0 -> sb_off (cur S) = 0 ->
   grows (cur S) = grows (cur P) -> gcols (cur S) = gcols (cur P) -> k10 P S = false ->
-  ground (vt r) -> shows P (scr r) (live (cur P)) -> same_modes P (scr r) ->
+  pend r = [] -> ground (vt r) -> shows P (scr r) (live (cur P)) -> same_modes P (scr r) ->
   exists ts r', state_diff_t S P = Ok ts /\ process r (ser_all ts) = Ok r' /\
     log r' = log r /\ ground (vt r') /\ resizing r' = resizing r /\
-    shows S (scr r') (live (cur S)) /\ same_modes S (scr r') /\ obs (scr r') = obs S.
+    shows S (scr r') (live (cur S)) /\ same_modes S (scr r') /\ obs (scr r') = obs S /\ pend r' = [].
 Proof.
-  intros RP RS OffP OffS Er Ec Hk Gr Sh Sm.
+  intros RP RS OffP OffS Er Ec Hk Hpd Gr Sh Sm.
   pose proof (reachable_source P RP OffP) as HP. pose proof (reachable_source S RS OffS) as HS.
   pose proof (k10_free P S HP HS (eq_sym Ec) Hk) as HK.
   destruct (reachable_tokens_ok S P 0 0 RS RP) as (_ & _ & _ & _ & (ts & Ets & Tok & _) & _).
   destruct (state_diff_obs_K S P (scr r) ts HS HP HK (reachable_lastu S RS) OffS Er Ec Sh Sm Ets)
     as (R' & P' & C' & Eo & Sh' & Sm').
-  destruct (process_tokens r ts R' Gr Tok P') as (r' & Ep & <- & El & Gq & Rz).
-  exists ts, r'. auto 10.
+  destruct (process_tokens r ts R' Hpd Gr Tok P') as (r' & Ep & <- & El & Gq & Rz).
+  pose proof (process_ser_all_pend r ts r' Hpd Tok Ep) as Hpd'.
+  exists ts, r'. auto 12.
 Qed.
 
 (* ------------------------------------------------------------------ *)
@@ -55,8 +57,8 @@ Theorem diff_round_K_strong P S :
 Proof.
   intros RP RS OffP OffS Er Ec Hk.
   destruct (reproduce_shows P RP OffP) as (r & Erp & Lr & Gr & Sh & Sm).
-  destruct (diff_step_bytes_K P S r RP RS OffP OffS (eq_sym Er) (eq_sym Ec) Hk Gr Sh Sm)
-    as (ts & r' & Ets & Ep & El & Gq & _ & Sh' & _ & Eo).
+  destruct (diff_step_bytes_K P S r RP RS OffP OffS (eq_sym Er) (eq_sym Ec) Hk (reproduce_pend P r RP Erp) Gr Sh Sm)
+    as (ts & r' & Ets & Ep & El & Gq & _ & Sh' & _ & Eo & _).
   exists r'. unfold diff_round. rewrite Erp. cbn [bind]. rewrite Ets. cbn [bind].
   split; [exact Ep|]. split; [exact Eo|]. split; [congruence|]. split; [exact Gq|apply Sh'].
 Qed.
@@ -85,19 +87,19 @@ Fixpoint chain_K (rows cols : N) (prev : screen) (snaps : list screen) : Prop :=
 Theorem diff_chain_K rows cols : forall snaps prev r,
   reachable prev -> sb_off (cur prev) = 0 -> grows (cur prev) = rows -> gcols (cur prev) = cols ->
   chain_K rows cols prev snaps ->
-  ground (vt r) -> shows prev (scr r) (live (cur prev)) -> same_modes prev (scr r) ->
+  pend r = [] -> ground (vt r) -> shows prev (scr r) (live (cur prev)) -> same_modes prev (scr r) ->
   exists r', diff_chain r prev snaps = Ok r' /\ log r' = log r /\ ground (vt r') /\
              shows (last_snap prev snaps) (scr r') (live (cur (last_snap prev snaps))) /\
              same_modes (last_snap prev snaps) (scr r') /\
              obs (scr r') = obs (last_snap prev snaps).
 Proof.
-  induction snaps as [|s rest IH]; intros prev r RP Off Pr Pc Hs Gr Sh Sm.
+  induction snaps as [|s rest IH]; intros prev r RP Off Pr Pc Hs Hpd Gr Sh Sm.
   - exists r. cbn [diff_chain last_snap]. split; [reflexivity|]. split; [reflexivity|]. split; [exact Gr|].
     split; [exact Sh|]. split; [exact Sm|]. now apply shows_obs.
   - destruct Hs as (RS & OffS & Sr & Sc & Hk & Hrest).
-    destruct (diff_step_bytes_K prev s r RP RS Off OffS ltac:(congruence) ltac:(congruence) Hk Gr Sh Sm)
-      as (ts & r1 & Ets & Ep & El & G1 & _ & Sh1 & Sm1 & _).
-    destruct (IH s r1 RS OffS Sr Sc Hrest G1 Sh1 Sm1) as (r' & E' & L' & G' & Sh' & Sm' & Eo').
+    destruct (diff_step_bytes_K prev s r RP RS Off OffS ltac:(congruence) ltac:(congruence) Hk Hpd Gr Sh Sm)
+      as (ts & r1 & Ets & Ep & El & G1 & _ & Sh1 & Sm1 & _ & Pd1).
+    destruct (IH s r1 RS OffS Sr Sc Hrest Pd1 G1 Sh1 Sm1) as (r' & E' & L' & G' & Sh' & Sm' & Eo').
     exists r'. cbn [diff_chain last_snap]. rewrite Ets. cbn [bind]. rewrite Ep. cbn [bind].
     split; [exact E'|]. split; [congruence|]. auto.
 Qed.
@@ -110,7 +112,7 @@ Theorem diff_chain_round_K rows cols S0 snaps :
 Proof.
   intros R0 Off Rr Rc Hs.
   destruct (reproduce_shows S0 R0 Off) as (r & Erp & Lr & Gr & Sh & Sm).
-  destruct (diff_chain_K rows cols snaps S0 r R0 Off Rr Rc Hs Gr Sh Sm) as (r' & E' & L' & G' & _ & _ & Eo).
+  destruct (diff_chain_K rows cols snaps S0 r R0 Off Rr Rc Hs (reproduce_pend S0 r R0 Erp) Gr Sh Sm) as (r' & E' & L' & G' & _ & _ & Eo).
   exists r, r'. split; [exact Erp|]. split; [exact E'|]. split; [exact Eo|]. split; [congruence|exact G'].
 Qed.
 
